@@ -18,7 +18,7 @@ RULE = ('files: seeded writer call sequences (1-5 segments, zero tails on both s
         'data in v0/v1, unreferenced trailing data, empty pool, w in {8,16,32,64}, versions 0-3, lzma presets) and a few '
         'real assembler outputs; per file: every strict prefix (complete for <= 4 KiB, structural boundaries + 256 seeded '
         'beyond), lost 64/512-byte blocks, every single-field corruption of header and segment table from a value table, '
-        'seeded payload bit flips and splices. evaluations = variants opened; non-trivial: a variant that differs from the '
+        'seeded payload bit flips and splices, stale tails after the intact file (1 byte .. 1.1 MB), a time-scaling probe (file + n vs 2n filler bytes). evaluations = variants opened; non-trivial: a variant that differs from the '
         'intact file; distinct = distinct (file digest, variant) pairs')
 STATE_MEASURE = 'distinct (version, w, structural region of the cut / corrupted field, reader verdict) tuples'
 ASSUMPTIONS = ['a write torn by a crash leaves a prefix of the intended bytes (write_to_file is sequential, no fsync, no '
@@ -415,6 +415,36 @@ def run(case):
             count('payload-damage')
             states.add(f"v{case['version']}|w{case['w']}|payload|{verdict}")
             _judge_damaged(b, verdict, detail, 'payload-damage', viol)
+    # ---- 4b. a stale tail after the intact file (a longer older file overwritten in place, a padded transfer ...)
+    tails = [b'\x00', bytes(rng.randrange(256) for _ in range(rng.choice([1, 7, 100]))), F, b'\xff' * 64]
+    if rng.random() < 0.25:
+        tails.append(bytes(rng.randrange(256) for _ in range(70000)))
+    if rng.random() < 0.06:
+        tails.append(rng.randbytes((1 << 20) + rng.choice([1, 4096, 99999])))
+    for tail in tails:
+        b = F + tail
+        verdict, detail, dt, _ = open_variant(b, real=True)
+        evals += 1
+        count('stale-tail')
+        states.add(f"v{case['version']}|w{case['w']}|tail{min(len(tail), 99999) // 1000}k|{verdict}")
+        if verdict == 'wrong-exception':
+            viol('totality', f'tail+{len(tail)}', 'Reader or FlipJumpReadFjmException', detail)
+        elif verdict == 'accept' and image_of(detail) != base_image:
+            viol('tail-changes-image', f'tail+{len(tail)}', 'rejected, or the same image as the intact file',
+                 'accepted with a different image')
+        if dt > 1.0 + len(b) / 20000.0:
+            viol('time', f'tail+{len(tail)}', 'linear in file size', f'{dt:.2f}s for {len(b)} bytes')
+    # ---- 4c. scaling: doubling the file must not quadruple the time (no super-linear reader)
+    if case['seed'] % 6 == 0:
+        for fill in (b'\x00', b'\x01'):
+            n1 = 96 * 1024
+            _, _, t1, _ = open_variant(F + fill * n1, real=True)
+            _, _, t2, _ = open_variant(F + fill * (2 * n1), real=True)
+            evals += 2
+            count('scaling-probe')
+            if t2 > 0.6 and t2 > 3.2 * max(t1, 0.02):
+                viol('time-superlinear', f'tail {fill!r}*n', f't(2n) <= 3.2 t(n) (n={n1} bytes took {t1:.2f}s)',
+                     f't(2n) = {t2:.2f}s')
     # ---- 5. run() agrees with the reader on a sample
     for b, nm in ((F, 'intact'), (F[:max(0, n - 1)], 'prefix-1'), (F[:pay_off], 'no-payload')):
         evals += 1
